@@ -8,8 +8,8 @@ AllMenu  == {"take", "next", "copy", "peek", "skip", "limit", "append", "appendh
              "thub", "use", "hpeek", "hcopy", "htake"}
 
 \* depth 1-2: every count token (the numeric normalisation clause)
-TokTakeAll  == {"None", "inf", "-1", "0", "1", "2", "3", "5", "1.4", "1.6", "3.7", "-inf", "nan", "-2.5"}
-TokSkipAll  == {"-1", "0", "1", "2", "4", "1.4", "1.6", "2.7"}
+TokTakeAll  == {"None", "inf", "-1", "0", "1", "2", "3", "5", "0.4", "0.6", "1.4", "1.6", "3.7", "-inf", "nan", "-2.5"}
+TokSkipAll  == {"-1", "0", "1", "2", "4", "0.4", "0.6", "1.4", "1.6", "2.7"}
 \* deeper: representative counts (within / equal to / beyond the remaining length)
 TokTakeRep  == {"None", "0", "2", "5", "inf"}
 TokPeekRep  == {"None", "2", "5"}
